@@ -10,7 +10,7 @@ U = project.uncps
 PLANS = {
     # tier -> [(profile, MaxOps)]
     # (profile, MaxOps) exhaustive; (profile, MaxOps, n) = n simulated behaviours (random deep filters)
-    "quick": [("logic", 2), ("arith", 1), ("strings", 1), ("misc", 1), ("math", 1), ("temporal", 1), ("long", 1), ("logic", 7, 1200), ("arith", 5, 150), ("strings", 4, 150)],
+    "quick": [("logic", 2), ("arith", 1), ("strings", 1), ("misc", 1), ("math", 1), ("temporal", 1), ("long", 0), ("logic", 7, 1200), ("arith", 5, 150), ("strings", 4, 150)],
     "thorough": [("logic", 3), ("arith", 2), ("strings", 2), ("misc", 2), ("math", 2), ("temporal", 2), ("long", 2), ("logic", 8, 6000), ("arith", 6, 3000),
                  ("strings", 5, 3000), ("misc", 4, 3000)],
 }
@@ -115,6 +115,60 @@ def describe(groups, cols, ids):
     return [{c: (project.uncps(v[1]) if v[0] == "s" else v[1:] if v[0] != "null" else None) for c, v in byid[i].items()} for i in ids]
 
 
+_JOB = None
+_RUNNER = None
+
+
+def _weight(plan):
+    return {"temporal": 9, "strings": 7, "logic": 6, "misc": 5, "arith": 4, "long": 3, "math": 1}.get(plan[0], 1) + (3 if len(plan) == 3 else 0)
+
+
+def _plan_worker(i):
+    import common
+    parent, backend, plans = _JOB
+    sub = common.Ctx(parent.prop, parent.tier, parent.seed)
+    global _RUNNER
+    if _RUNNER is None:                 # one database fixture per worker process, kept across the plans it takes
+        _RUNNER = Runner(sub, backend)
+    _RUNNER.ctx = sub
+    run_plan(sub, backend, plans[i], _RUNNER, set())
+    return {"violations": sub.violations[:200] + [(k, None) for k, _ in sub.violations[200:]], "traces": sub.traces,
+            "evaluations": sub.evaluations, "nontrivial": sub.nontrivial, "samples": sub.samples, "notes": sub.notes,
+            "kf_hit": sub.kf.hit, "states": sub.states, "transitions": sub.transitions, "tlc_cmds": sub.tlc_cmds}
+
+
+def run_plan(ctx, backend, plan, runner, seen):
+    prof, mo = plan[0], plan[1]
+    quick = ctx.tier == "quick"
+    workers = 6 if quick else 16
+    consts = {"MaxOps": mo, "Profile": '"%s"' % prof, "Backend": '"%s"' % backend}
+    if len(plan) == 3:
+        res = tlc.run("MC_Sem", constants=consts, simulate=max(1, plan[2] // workers), depth=40, seed=ctx.seed + 101,
+                      keep_lines=lambda r: r.get("k") in ("case", "domain"), timeout=7000, heap="12g" if not quick else "4g",
+                      check_count=False, workers=workers)
+    else:
+        res = tlc.run("MC_Sem", constants=consts, keep_lines=lambda r: r.get("k") in ("case", "domain"), timeout=7000,
+                      heap="12g" if not quick else "4g", workers=workers)
+    label = "%s%d%s" % (prof, mo, "-sim" if len(plan) == 3 else "")
+    ctx.add_tlc(res)
+    dom = [r for r in res.records if r["k"] == "domain"]
+    if runner.db is None:
+        runner.init(dom[0]["dom"])
+    # quick tier on Django: every 3rd case of the large temporal enumeration (deterministic stride)
+    stride = 3 if (quick and backend == "django" and prof == "temporal") else 1
+    k = 0
+    for r in res.records:
+        if r["k"] == "case":
+            kx = json.dumps(r["tree"])
+            if kx in seen:
+                continue
+            seen.add(kx)
+            k += 1
+            if k % stride:
+                continue
+            runner.check(r, label)
+
+
 def run(ctx, backend):
     ctx.rule = ("typed scalar filters from derivation machine MC_Sem (profiles logic / arith / strings / misc / math / temporal / long = in-lists of 1203 items), each "
                 "with the valuations of its referenced columns for which Sem!Eval = TRUE over the domain "
@@ -128,34 +182,28 @@ def run(ctx, backend):
     ctx.assumptions = ["comparisons with a NULL operand are unknown (SQL-style three-valued logic, as the property states)",
                        "ASCII lower-case string domain (engine LOWER/LIKE case folding is out of scope)",
                        "divisors are non-zero literals; substring indexes are non-negative literals"]
-    runner = Runner(ctx, backend)
-    seen = set()
     plans = PLANS[ctx.tier]
     if ctx.tier == "quick" and backend != "sqlite":
         # the ORM round trip costs ~2 ms per query: smaller exhaustive bound, same simulated depth
-        plans = [("logic", 1), ("arith", 1), ("strings", 1), ("misc", 1), ("math", 1), ("temporal", 1), ("long", 1), ("logic", 7, 700), ("arith", 5, 150), ("strings", 4, 150)]
-    for plan in plans:
-        prof, mo = plan[0], plan[1]
-        consts = {"MaxOps": mo, "Profile": '"%s"' % prof, "Backend": '"%s"' % backend}
-        if len(plan) == 3:
-            res = tlc.run("MC_Sem", constants=consts, simulate=max(1, plan[2] // 16), depth=40, seed=ctx.seed + 101,
-                          keep_lines=lambda r: r.get("k") in ("case", "domain"), timeout=7000, heap="12g", check_count=False)
-            label = "%s%d-sim" % (prof, mo)
-        else:
-            res = tlc.run("MC_Sem", constants=consts,
-                          keep_lines=lambda r: r.get("k") in ("case", "domain"), timeout=7000, heap="12g")
-            label = "%s%d" % (prof, mo)
-        ctx.add_tlc(res)
-        dom = [r for r in res.records if r["k"] == "domain"]
-        if runner.db is None:
-            runner.init(dom[0]["dom"])
-        for r in res.records:
-            if r["k"] == "case":
-                kx = json.dumps(r["tree"])
-                if kx in seen:
-                    continue
-                seen.add(kx)
-                runner.check(r, label)
+        plans = [("logic", 1), ("arith", 1), ("strings", 1), ("misc", 1), ("math", 1), ("temporal", 1), ("long", 0), ("logic", 7, 700), ("arith", 5, 150), ("strings", 4, 150)]
+    if ctx.tier == "quick":
+        # the plans are independent: four forked workers, each with its own database fixture, take them in turn
+        import multiprocessing as mp
+        global _JOB
+        _JOB = (ctx, backend, plans)
+        order = sorted(range(len(plans)), key=lambda i: -_weight(plans[i]))
+        with mp.get_context("fork").Pool(4) as pool:
+            for part in pool.imap_unordered(_plan_worker, order):
+                ctx.states += part.pop("states")
+                ctx.transitions += part.pop("transitions")
+                ctx.tlc_cmds += part.pop("tlc_cmds")
+                ctx.merge(part)
+        _JOB = None
+    else:
+        runner = Runner(ctx, backend)
+        seen = set()
+        for plan in plans:
+            run_plan(ctx, backend, plan, runner, seen)
     ctx.exhaustive = False
 
 
